@@ -67,6 +67,66 @@ def reuse_case(idx, payload):
     return res
 
 
+def multifile_case(idx, payload):
+    """a toolbox generated from SEVERAL interface files (each with its own namespaces; class names repeat across files in
+    different namespaces): the dispatch table must be consistent for the union"""
+    import streams
+    seed, _ = payload
+    import random
+    rng = random.Random(seed * 1000003 + idx + 424242)
+    kw = dict(matlab_safe=True, typedef_same_ns=True, p_virtual=0.4, class_pool=["Pose", "Node"], p_suffix=0.0,
+              extra_kinds=['cls', 'cls', 'ns'], max_decls=3)
+    pools = [["geometry", "sensors"], ["nav", "sensors2"], ["lin", "geo2"]]
+    texts = []
+    for k in range(rng.randint(2, 3)):
+        _, _, t = streams.gen_coherent(seed + 31 + k, idx, dict(kw, ns_pool=pools[k], mnames=["f%d" % k, "g%d" % k, "h%d" % k]), style='space')
+        # every file keeps its declarations in a namespace of its own, so that equal simple names never denote the same entity
+        texts.append("namespace %s {\n%s\n}\n" % (["alpha", "beta", "gamma"][k], t.rstrip()))
+    res = dict(idx=idx, text="\x1e".join(texts), bad=None, ran=False)
+    st, out = impl_matlab(texts, "mymod", [], False)
+    if st != "ok":
+        # the files live in disjoint namespaces: if each of them is accepted alone, the list must be accepted too
+        if all(impl_matlab([t], "mymod", [], False)[0] == "ok" for t in texts):
+            res["ran"] = True
+            res["bad"] = "every file is accepted alone but the list of files is rejected (%s)" % out
+        return res
+    res["ran"] = True
+    p = pj.dispatch_problems(out, "mymod")
+    if p:
+        res["bad"] = p[0]
+        return res
+    # every call site lives in a .m file: the toolbox of the list has exactly the .m files of the single-file toolboxes
+    singles = [impl_matlab([t], "mymod", [], False) for t in texts]
+    if all(s_[0] == "ok" for s_ in singles):
+        want = set()
+        for s_ in singles:
+            want |= {k for k in s_[1] if k.endswith(".m")}
+        got = {k for k in out if k.endswith(".m")}
+        if got != want:
+            res["bad"] = "the .m files of the toolbox are not those of the single files: missing %s, unexpected %s" % (
+                sorted(want - got)[:4], sorted(got - want)[:4])
+    return res
+
+
+def multifile_stream(ctx, n, off=0, collect=True):
+    first = None
+    for r in fw.run_cases(multifile_case, [(ctx.seed + off, None)] * n):
+        if "crash" in r:
+            raise RuntimeError(r["crash"])
+        if collect:
+            ctx.case("multifile" + r["text"], nontrivial=r["ran"], sample=None)
+            ctx.count("multifile_toolboxes" if r["ran"] else "multifile_rejected")
+        if r["bad"]:
+            v = dict(what="dispatch table of a toolbox generated from several interface files is inconsistent: " + r["bad"],
+                     files=r["text"].split("\x1e"))
+            first = first or v
+            if collect:
+                ctx.spec_fail(v["what"], files=v["files"])
+        elif collect and r["ran"]:
+            ctx.traces_validated += 1
+    return first
+
+
 def reuse_stream(ctx, n, off=0, collect=True):
     first = None
     for r in fw.run_cases(reuse_case, [(ctx.seed + off, None)] * n):
@@ -95,8 +155,13 @@ def main(ctx):
                         (dict(class_pool=["Shape", "Node", "Base"], p_virtual=0.75, p_suffix=0.0, max_decls=4, max_depth=2,
                               extra_kinds=['cls', 'cls', 'ns']), 0.4),
                         # many free functions with non-adjacent overloads, in nested namespaces
-                        (dict(extra_kinds=['func'] * 8, max_decls=7, max_members=2), 0.4)])
+                        (dict(extra_kinds=['func'] * 8, max_decls=7, max_members=2), 0.4),
+                        # ignore-list entries naming namespaced classes: ids must stay contiguous and every case keep its call site
+                        (dict(matlab_ignore=True, p_template=0.5, unique_ns=True, extra_kinds=['ns', 'ns', 'cls']), 0.3),
+                        # overloaded static methods (same name, several signatures / trailing defaults)
+                        (dict(mnames=["Create", "Count", "f"], extra_member_kinds=['static', 'static'], max_members=6, p_default=0.6), 0.3)])
     reuse_stream(ctx, ctx.scale(50, 600))
+    multifile_stream(ctx, ctx.scale(60, 800))
     for e in ctx.known:
         w = e["witness"]
         st, out = impl_matlab([w["input"]], "mymod", [], False)
@@ -107,7 +172,7 @@ def main(ctx):
                 ctx.spec_fail("a defect recorded as fixed is back: " + e["what"], **w)
         elif still:
             ctx.known_hit(e)
-    return fw.finish(ctx, search=lambda c: search(c) or reuse_stream(c, c.scale(100, 600), off=3, collect=False), assumptions=["hand-written model of matlab_wrapper/wrapper.py, tied byte-exactly on generated inputs"])
+    return fw.finish(ctx, search=lambda c: search(c) or reuse_stream(c, c.scale(100, 600), off=3, collect=False) or multifile_stream(c, c.scale(60, 400), off=5, collect=False), assumptions=["hand-written model of matlab_wrapper/wrapper.py, tied byte-exactly on generated inputs"])
 
 
 def replay(ctx, path):
